@@ -405,6 +405,12 @@ func (w *accWorld) finishBody(conns map[string]*accConn, cs *accConn, kind strin
 	} else {
 		key = rnd(32)
 	}
+	if cs.cur == nil {
+		switch kind {
+		case "genuine", "wrongkey", "reordered", "unknown", "self", "reflect", "crossname":
+			return nil, fmt.Errorf("%s finish without an accepted start on this connection", kind)
+		}
+	}
 	switch kind {
 	case "genuine":
 		if !cs.legit {
